@@ -22,15 +22,15 @@ BIG = ("triple", ("iri", "http://p1/n1"), ("iri", "http://p2/n2"),
        ("triple", ("iri", "http://p3/n3"), ("iri", "http://p4/n4"),
         ("triple", ("iri", "http://p5/n5"), ("iri", "http://p6/n6"),
          ("triple", ("iri", "http://p7/n7"), ("iri", "http://p8/n8"), ("iri", "http://p9/n9")))))
-S_AL = I[:3] + [QT1, LD[0]]
-P_AL = I[1:4]
-O_AL = [I[2], I[4], LD[1], LD[2], QT1, QT2, BIG]
+S_AL = I[:3] + [QT1, LD[0], ("iri", "http://z/9"), ("lit", "s", None, "http://dt/0")]   # the last two re-use the OLDEST entries
+P_AL = I[1:4] + [("iri", "http://a/p")]
+O_AL = [I[2], I[4], LD[1], LD[2], QT1, QT2, BIG, ("iri", "http://a/o")]
 G_AL = [("default",), I[3], I[4], LD[2]]
 
 
 def overcap(s: int, p: int, o: int, g: int, pf: int, dt: int) -> bool:
     """
-    pre: 0 <= s < 5 and 0 <= p < 3 and 0 <= o < 7 and 0 <= g < 4 and 1 <= pf <= P["maxpf"] and 1 <= dt <= 3
+    pre: 0 <= s < 7 and 0 <= p < 4 and 0 <= o < 8 and 0 <= g < 4 and 1 <= pf <= P["maxpf"] and 1 <= dt <= 3
     pre: (s == P["s"]) and (P["phys"] != 1 or g == 0) and g < P["gmax"] and dt <= P["dtmax"]
     post: _
     """
@@ -42,9 +42,13 @@ def overcap(s: int, p: int, o: int, g: int, pf: int, dt: int) -> bool:
         pfv = alpha.pick(pf - 1, list(range(1, P["maxpf"] + 1)))
         dtv = alpha.pick(dt - 1, [1, 2, 3])
         # a first statement that fills the tables, then the statement under test
-        first = ("T", ("iri", "http://z/0"), ("iri", "http://z/1"), ("lit", "0", None, "http://dt/0"))
+        # a first statement leaving two prefixes and (datatype table >= 2) two datatypes behind, oldest first
+        first = ("T", ("iri", "http://z/0") if dtv < 2 else ("lit", "f", None, "http://dt/0"), ("iri", "http://z/1" if pfv < 2 else "http://y/1"),
+                 ("lit", "0", None, "http://dt/0" if dtv < 2 else "http://dt/9"))
+        if pfv >= 2 and dtv >= 2:
+            first = ("T", ("iri", "http://z/0"), ("iri", "http://y/1"), ("lit", "0", None, "http://dt/0"))
         if phys != 1:
-            first = ("Q",) + first[1:] + (("default",),)
+            first = ("Q",) + first[1:] + ((("default",),) if dtv < 2 or pfv < 2 else (("lit", "g", None, "http://dt/9"),))
         it = ("T" if phys == 1 else "Q",) + tuple(ts)
         items = [first, it]
         want = [norm_item(i) for i in items]
